@@ -34,6 +34,9 @@ func (k c10Kind) literal(bits *big.Int) string {
 	switch k.letter {
 	case "F", "D":
 		return "0x" + h
+	case "L":
+		// LLVM writes the low 64 bits first, then the high 64 bits (KF-41, repaired)
+		return "0xL" + h[16:] + h[:16]
 	}
 	return "0x" + k.letter + h
 }
@@ -241,6 +244,9 @@ func c10One(c *config, k c10Kind, bits *big.Int, label string) {
 			var signOut uint
 			if strings.HasPrefix(printed, "0x") {
 				h := strings.TrimLeft(printed[2:], "HKLM")
+				if k.letter == "L" && len(h) == 32 {
+					h = h[16:] + h[:16] // the high word is written last
+				}
 				ob, _ := new(big.Int).SetString(h, 16)
 				if ob != nil {
 					signOut = ob.Bit(len(h)*4 - 1)
@@ -420,6 +426,7 @@ func runC10(c *config) {
 			o.Fail("decimal_spelling", "", "decimal literal rejected", map[string]string{"literal": lit})
 			continue
 		}
+		c10DecCase(c, lit, c1)
 		want, _ := new(big.Float).SetPrec(53).SetMode(big.ToNearestEven).SetString(lit)
 		f1, _ := c1.X.Float64()
 		fw, _ := want.Float64()
@@ -433,6 +440,48 @@ func runC10(c *config) {
 			o.Fail("decimal_spelling", "", "decimal literal not read as the correctly rounded double, or not stable", map[string]string{"literal": lit, "printed": printed})
 		} else {
 			o.Pass("decimal_spelling")
+		}
+	}
+	// the extended kinds in LLVM's own layout, from an independent encoding of a double: fp128 is 0xL, the low 64
+	// bits, then the high 64 bits; x86_fp80 is 0xK, sign and exponent (4 digits), the significand with its
+	// explicit integer bit (16 digits); ppc_fp128 is 0xM, the bits of the high double, the bits of the low double.
+	// The constructor constant.NewFloat and the reader of the literal must both agree with it.
+	for i := 0; i < 400*c.scale; i++ {
+		d := math.Float64frombits((uint64(1023-300+r.intn(600)) << 52) | r.next()>>12)
+		if i < 8 {
+			d = []float64{1, -1, 2, 0.5, 1.5, -0.75, 1e10, 3}[i]
+		}
+		if r.coin() && i >= 8 {
+			d = -d
+		}
+		b := math.Float64bits(d)
+		sign, exp, mant := b>>63, int64((b>>52)&0x7FF)-1023, b&(1<<52-1)
+		hi := sign<<63 | uint64(exp+16383)<<48 | mant>>4
+		lo := mant << 60
+		want := map[string]string{
+			"L": fmt.Sprintf("0xL%016X%016X", lo, hi),
+			"K": fmt.Sprintf("0xK%04X%016X", sign<<15|uint64(exp+16383), 1<<63|mant<<11),
+			"M": fmt.Sprintf("0xM%016X%016X", b, uint64(0)),
+		}
+		for _, k := range c10Kinds[3:] {
+			o.Stat("llvm_layout")
+			var printed string
+			var back float64
+			oc, msg := guard(func() error {
+				printed = constant.NewFloat(k.typ, d).Ident()
+				c2, err := constant.NewFloatFromString(k.typ, want[k.letter])
+				if err != nil {
+					return err
+				}
+				back, _ = c2.X.Float64()
+				return nil
+			})
+			if oc != ocOk || printed != want[k.letter] || math.Float64bits(back) != b {
+				o.Fail("float_round_trip", "", "an extended-precision constant is not written or read in LLVM's layout",
+					map[string]interface{}{"kind": k.typ.String(), "value": fmt.Sprint(d), "printed": printed, "llvm": want[k.letter], "literal": want[k.letter], "read_back": fmt.Sprint(back), "msg": msg})
+			} else {
+				o.Pass("llvm_layout")
+			}
 		}
 	}
 	// decimal spellings next to a rounding boundary: the exact midpoint of two adjacent doubles (a tie, to even),
@@ -487,6 +536,7 @@ func runC10(c *config) {
 				o.Fail("decimal_spelling", "", "decimal literal rejected: "+oc.String(), map[string]string{"kind": "double", "literal": lit, "msg": msg})
 				continue
 			}
+			c10DecCase(c, lit, c1)
 			q, _ := new(big.Rat).SetString(lit)
 			fw, _ := q.Float64()
 			f1, _ := c1.X.Float64()
@@ -570,3 +620,48 @@ func c10HalfAsDouble(c *config, k c10Kind, b uint16) {
 
 // the known-finding class of a misread decimal (none so far)
 func c10NearTieClass(q *big.Rat, lo, hi float64) string { return "" }
+
+// c10DecCase sends a decimal literal of kind double to the model (kind dec_read): the sign, the digits as one integer
+// and the power of ten; the observed output is the bit pattern of the double the library reads
+var c10LongDec int
+
+func c10DecCase(c *config, lit string, c1 *constant.Float) {
+	// the extracted reader works on Coq's binary integers: a literal of a thousand digits takes it a tenth of a
+	// second, so the quick tier sends every twelfth of the long ones (the thorough tier all)
+	if len(lit) > 150 && c.tier != "thorough" {
+		c10LongDec++
+		if c10LongDec%12 != 0 {
+			return
+		}
+	}
+	neg := "0"
+	t := lit
+	if strings.HasPrefix(t, "-") {
+		neg, t = "1", t[1:]
+	} else if strings.HasPrefix(t, "+") {
+		t = t[1:]
+	}
+	e10 := 0
+	if i := strings.IndexAny(t, "eE"); i >= 0 {
+		fmt.Sscanf(t[i+1:], "%d", &e10)
+		t = t[:i]
+	}
+	if i := strings.IndexByte(t, '.'); i >= 0 {
+		e10 -= len(t) - i - 1
+		t = t[:i] + t[i+1:]
+	}
+	t = strings.TrimLeft(t, "0")
+	if t == "" {
+		t = "0"
+	}
+	for _, ch := range t {
+		if ch < '0' || ch > '9' {
+			return
+		}
+	}
+	if c1.NaN || c1.X == nil {
+		return
+	}
+	f, _ := c1.X.Float64()
+	c.out.Case("dec_read", []string{neg, t, fmt.Sprint(e10)}, []string{fmt.Sprintf("%016X", math.Float64bits(f))})
+}
